@@ -965,19 +965,10 @@ impl<'a> Tr<'a> {
                     return Ok(format!("[{}]", parts?.join(", ")));
                 }
                 if name == "matches" {
-                    // matches!(x, a..=b)
-                    let args: syn::punctuated::Punctuated<MatchesArg, syn::Token![,]> =
-                        m.mac.parse_body_with(syn::punctuated::Punctuated::parse_terminated).map_err(|e| e.to_string())?;
-                    let args: Vec<&MatchesArg> = args.iter().collect();
-                    if args.len() == 2 {
-                        if let (MatchesArg::E(x), MatchesArg::P(Pat::Range(r))) = (args[0], args[1]) {
-                            if let (Some(a), Some(b), syn::RangeLimits::Closed(_)) = (&r.start, &r.end, &r.limits) {
-                                let x = self.vexpr(x)?;
-                                return Ok(format!("({} ≤ {x} && {x} ≤ {})", self.vexpr(a)?, self.vexpr(b)?));
-                            }
-                        }
-                    }
-                    return Err("matches! form".into());
+                    // matches!(x, PAT) with PAT built from literals, closed ranges and `|`
+                    let ma: MatchesCall = m.mac.parse_body().map_err(|e| e.to_string())?;
+                    let x = self.vexpr(&ma.scrut)?;
+                    return self.pat_test(&x, &ma.pat);
                 }
                 Err(format!("macro {name}!"))
             }
@@ -1062,6 +1053,27 @@ impl<'a> Tr<'a> {
             Expr::MethodCall(m) => self.method(m),
             Expr::Index(_) => Err("indexing / slicing (can panic; bound by hand)".into()),
             _ => Err(format!("value expression {}", e.to_token_stream())),
+        }
+    }
+
+    /// boolean test `x matches pat` for patterns built from literals, closed ranges and `|`
+    fn pat_test(&mut self, x: &str, p: &Pat) -> R<String> {
+        match p {
+            Pat::Paren(q) => self.pat_test(x, &q.pat),
+            Pat::Lit(l) => {
+                let e = Expr::Lit(syn::ExprLit { attrs: vec![], lit: l.lit.clone() });
+                Ok(format!("({x} == {})", self.vexpr(&e)?))
+            }
+            Pat::Range(r) => match (&r.start, &r.end, &r.limits) {
+                (Some(a), Some(b), syn::RangeLimits::Closed(_)) => Ok(format!("({} ≤ {x} && {x} ≤ {})", self.vexpr(a)?, self.vexpr(b)?)),
+                _ => Err("range pattern form".into()),
+            },
+            Pat::Or(o) => {
+                let parts: R<Vec<String>> = o.cases.iter().map(|c| self.pat_test(x, c)).collect();
+                Ok(format!("({})", parts?.join(" || ")))
+            }
+            Pat::Wild(_) => Ok("true".into()),
+            _ => Err(format!("matches! pattern {}", p.to_token_stream())),
         }
     }
 
@@ -1218,20 +1230,22 @@ impl<'a> Tr<'a> {
     }
 }
 
-enum MatchesArg {
-    E(Expr),
-    P(Pat),
+struct MatchesCall {
+    scrut: Expr,
+    pat: Pat,
 }
-impl syn::parse::Parse for MatchesArg {
+impl syn::parse::Parse for MatchesCall {
     fn parse(input: syn::parse::ParseStream) -> syn::Result<Self> {
-        let fork = input.fork();
-        if let Ok(p) = Pat::parse_single(&fork) {
-            if matches!(p, Pat::Range(_)) {
-                let p = Pat::parse_single(input)?;
-                return Ok(MatchesArg::P(p));
-            }
+        let scrut: Expr = input.parse()?;
+        let _: syn::Token![,] = input.parse()?;
+        let pat = Pat::parse_multi_with_leading_vert(input)?;
+        if input.peek(syn::Token![,]) {
+            let _: syn::Token![,] = input.parse()?;
         }
-        Ok(MatchesArg::E(input.parse()?))
+        if !input.is_empty() {
+            return Err(input.error("matches! with a guard"));
+        }
+        Ok(MatchesCall { scrut, pat })
     }
 }
 
@@ -1248,6 +1262,10 @@ enum FnTerm {
 
 fn main() {
     let a: Vec<String> = std::env::args().collect();
+    if a.len() >= 7 && a[1] == "--own" {
+        own_main(&a[2], &a[3], &a[4], &a[5], &a[6]);
+        return;
+    }
     if a.len() < 6 {
         eprintln!("usage: rs2lean <parser-src-dir> <config> <out-Parser.lean> <out-Tie.lean> <out-report.json>");
         std::process::exit(2);
@@ -1256,3 +1274,4 @@ fn main() {
 }
 
 include!("driver.rs");
+include!("own.rs");
